@@ -748,7 +748,7 @@ Definition literal_val (e : expr) : val :=
 
 Definition initial (p : program) : state :=
   mkState (map (fun g => (fst g, literal_val (snd g))) (p_globals p)) [] [] 0%Z [] []
-          [[mkFrame FMain (p_top p) [] []]] [] out_empty false Running.
+          [[mkFrame FMain (p_top p ++ [SDivert TDone]) [] []]] [] out_empty false Running.
 
 Definition visible_choices (st : state) : list pchoice :=
   filter (fun c => negb (pc_invisible c)) (st_choices st).
